@@ -38,7 +38,11 @@ func pick(items []reuseItem) []reuseItem {
 	sig := func(c *Case) string {
 		s := ""
 		for _, t := range c.Inputs {
-			s += fmt.Sprintf("%d,", len(t.Shape))
+			if t.Nil {
+				s += "nil,"
+			} else {
+				s += fmt.Sprintf("%d,", len(t.Shape))
+			}
 		}
 		return s
 	}
@@ -92,13 +96,11 @@ func (r *reusePass) add(c *Case, text string) {
 		return
 	}
 	a, _ := json.Marshal(c.Attrs)
+	// ranks and extents may differ between applications (ONNX allows a node to see inputs of unknown rank), and so may the
+	// presence of optional inputs when the operator is driven through its API: only the element type of the first input is fixed
 	key := fmt.Sprintf("%s|%s|%d|", c.Op, a, c.Nout)
-	for _, t := range c.Inputs {
-		if t.Nil {
-			key += "nil,"
-		} else {
-			key += t.Dt + "," // ranks and extents may differ between applications: ONNX allows a node to see inputs of unknown rank
-		}
+	if len(c.Inputs) > 0 && !c.Inputs[0].Nil {
+		key += c.Inputs[0].Dt
 	}
 	h := sha1.Sum([]byte(text))
 	g := append(r.groups[key], reuseItem{c, text, string(h[:])})
